@@ -506,7 +506,8 @@ def s_add(a, b, ctx=None):
     if r is not NotImplemented:
         return r
     if isinstance(a, Polar) or isinstance(b, Polar):
-        raise Unsupported("sum involving exp(i*phi) values")
+        a = polar_to_cx(a) if isinstance(a, Polar) else a
+        b = polar_to_cx(b) if isinstance(b, Polar) else b
     if isinstance(a, Cx) or isinstance(b, Cx):
         a, b = to_cx(a), to_cx(b)
         return Cx(r_add(a.re, b.re), r_add(a.im, b.im))
@@ -525,10 +526,22 @@ def s_sub(a, b, ctx=None):
     return r_sub(a, b)
 
 
+def polar_to_cx(p):
+    """r exp(i phi) = r cos(phi) + i r sin(phi)  (cos / sin uninterpreted)"""
+    return Cx(r_mul(p.r, UF("cos")(zr(p.phi))), r_mul(p.r, UF("sin")(zr(p.phi))))
+
+
+def _general_cx(x):
+    return isinstance(x, Cx) and not ((is_conc(x.im) and _num(x.im) == 0) or (is_conc(x.re) and _num(x.re) == 0))
+
+
 def s_mul(a, b, ctx=None):
     r = _plug("mul", a, b, ctx)
     if r is not NotImplemented:
         return r
+    if (isinstance(a, Polar) and _general_cx(b)) or (isinstance(b, Polar) and _general_cx(a)):
+        a = polar_to_cx(a) if isinstance(a, Polar) else a
+        b = polar_to_cx(b) if isinstance(b, Polar) else b
     if isinstance(a, Polar) or isinstance(b, Polar):
         a, b = to_polar(a), to_polar(b)
         return Polar(r_mul(a.r, b.r), r_add(a.phi, b.phi))
